@@ -3,6 +3,8 @@ package main
 // C01, nesting of executions — R-C01-TREEHOP, R-C01-OPERAND.
 
 import (
+	"fmt"
+	"os"
 	"go/token"
 	"go/types"
 	"strings"
@@ -255,11 +257,10 @@ func ruleC01Operand(p *Prog, a *Anchors, r *Report) {
 					}
 					var ecs []edgeCond
 					for i, edgePol := range []bool{true, false} {
+						// (only the branch that tests the match itself: a boolean computed from it earlier and
+						// branched on later — `negative := sign != nil && …` — is not where the token was matched)
 						cc, pp := normCond(iff.Cond, edgePol)
 						ecs = append(ecs, edgeCond{cc, pp, mb.Succs[i]})
-						for _, cp := range expandShortCircuit(cc, pp, 0) {
-							ecs = append(ecs, edgeCond{cp.c, cp.pol, mb.Succs[i]})
-						}
 					}
 					for _, ec := range ecs {
 						x, eq, isNil := condIsNilTest(ec.c)
@@ -272,6 +273,9 @@ func ruleC01Operand(p *Prog, a *Anchors, r *Report) {
 						}
 						if !MustPassFrom(succ, 0, in, isStep) && !mustPassFromFlagsEdge(mb, succ, in, isStep) {
 							uncounted = iff
+							if os.Getenv("PONGOCHECK_DEBUG") != "" {
+								fmt.Fprintf(os.Stderr, "OPERAND debug: %s call %s: edge %d->%d uncounted\n", p.FuncName(f), callee.Name(), mb.Index, succ.Index)
+							}
 						}
 					}
 				}
@@ -321,11 +325,43 @@ func mustPassFromFlagsFrom(start, startFrom *ssa.BasicBlock, target ssa.Instruct
 		sortStrings(parts)
 		return strings.Join(parts, ",")
 	}
+	// what is known about nil-ness on the path: the edge the walk starts on may be the success edge of a nil test
+	nonNil := map[ssa.Value]bool{}
+	if startFrom != nil && len(startFrom.Instrs) > 0 {
+		if iff, ok := startFrom.Instrs[len(startFrom.Instrs)-1].(*ssa.If); ok {
+			for i, edgePol := range []bool{true, false} {
+				if startFrom.Succs[i] != start {
+					continue
+				}
+				cc, pp := normCond(iff.Cond, edgePol)
+				if x, eq, isNil := condIsNilTest(cc); isNil {
+					nonNil[stripLoad(x)] = eq != pp // x != nil holds on this edge
+				}
+			}
+		}
+	}
+	// boolean fields of local records set to a constant on the path (`expr.negate = true … if expr.negate`)
+	type memKey struct {
+		base  ssa.Value
+		field int
+	}
+	var walkM func(b, from *ssa.BasicBlock, env map[*ssa.Phi]bool, mem map[memKey]bool, depth int)
 	var walk func(b, from *ssa.BasicBlock, env map[*ssa.Phi]bool, depth int)
+	curMem := map[memKey]bool{}
 	walk = func(b, from *ssa.BasicBlock, env map[*ssa.Phi]bool, depth int) {
+		walkM(b, from, env, curMem, depth)
+	}
+	walkM = func(b, from *ssa.BasicBlock, env map[*ssa.Phi]bool, memIn map[memKey]bool, depth int) {
 		if reached || depth > 400 {
 			return
 		}
+		mem := map[memKey]bool{}
+		for k, v := range memIn {
+			mem[k] = v
+		}
+		saved := curMem
+		curMem = mem
+		defer func() { curMem = saved }()
 		// phis of b, given the edge taken
 		next := map[*ssa.Phi]bool{}
 		for k, v := range env {
@@ -362,7 +398,11 @@ func mustPassFromFlagsFrom(start, startFrom *ssa.BasicBlock, target ssa.Instruct
 				}
 			}
 		}
-		st := state{b, from, encode(next)}
+		memSig := ""
+		for k, v := range mem {
+			memSig += fmt.Sprintf("|%s.%d=%v", k.base.Name(), k.field, v)
+		}
+		st := state{b, from, encode(next) + memSig}
 		if seen[st] {
 			return
 		}
@@ -375,9 +415,43 @@ func mustPassFromFlagsFrom(start, startFrom *ssa.BasicBlock, target ssa.Instruct
 			if barrier(in) {
 				return
 			}
+			if sto, isSt := in.(*ssa.Store); isSt {
+				if fa, isFA := sto.Addr.(*ssa.FieldAddr); isFA {
+					k := memKey{fa.X, fa.Field}
+					if c, isC := sto.Val.(*ssa.Const); isC && c.Value != nil && (c.Value.ExactString() == "true" || c.Value.ExactString() == "false") {
+						mem[k] = c.Value.ExactString() == "true"
+					} else {
+						delete(mem, k)
+					}
+				}
+			}
 		}
 		if iff, ok := b.Instrs[len(b.Instrs)-1].(*ssa.If); ok {
 			c, pol := normCond(iff.Cond, true)
+			if x, eq, isNil := condIsNilTest(c); isNil {
+				if nn, known := nonNil[stripLoad(x)]; known {
+					// c is `x == nil` (eq) or `x != nil`; its truth value under the known fact
+					holds := nn != eq
+					if holds == pol {
+						walk(b.Succs[0], b, next, depth+1)
+					} else {
+						walk(b.Succs[1], b, next, depth+1)
+					}
+					return
+				}
+			}
+			if u, isU := c.(*ssa.UnOp); isU && u.Op == token.MUL {
+				if fa, isFA := u.X.(*ssa.FieldAddr); isFA {
+					if v, known := mem[memKey{fa.X, fa.Field}]; known {
+						if v == pol {
+							walk(b.Succs[0], b, next, depth+1)
+						} else {
+							walk(b.Succs[1], b, next, depth+1)
+						}
+						return
+					}
+				}
+			}
 			if phi, isPhi := c.(*ssa.Phi); isPhi {
 				if v, known := next[phi]; known {
 					if v == pol {
@@ -403,4 +477,123 @@ func mustPassFromFlagsFrom(start, startFrom *ssa.BasicBlock, target ssa.Instruct
 func mustPassFromFlagsEdge(pred, succ *ssa.BasicBlock, target ssa.Instruction, barrier func(ssa.Instruction) bool) bool {
 	// a synthetic walk: start at succ with `from` = pred
 	return mustPassFromFlagsFrom(succ, pred, target, barrier)
+}
+
+// boolDepthStep: g is a helper of the form `enter(limit) (…, within bool)`: it steps a counter field itself (a store
+// field = field + k, k > 0, on every path) and one of its results says whether the counter is within a bound — on
+// every return that result is a comparison of the (stepped) field with a constant or with a parameter of g.
+type boolStep struct {
+	resIdx     int
+	withinWhen bool
+	field      *ssa.FieldAddr
+	boundConst int64
+	boundParam *ssa.Parameter
+}
+
+func boolDepthStep(p *Prog, g *ssa.Function) (boolStep, bool) {
+	var bs boolStep
+	if g == nil || g.Blocks == nil || !p.InPkg(g) || g.Parent() != nil || len(g.Blocks) > 16 {
+		return bs, false
+	}
+	fieldOf := func(v ssa.Value) (*ssa.FieldAddr, bool) {
+		if u, ok := v.(*ssa.UnOp); ok && u.Op == token.MUL {
+			fa, ok := u.X.(*ssa.FieldAddr)
+			return fa, ok
+		}
+		return nil, false
+	}
+	// the step
+	var step *ssa.Store
+	for _, b := range g.Blocks {
+		for _, in := range b.Instrs {
+			st, ok := in.(*ssa.Store)
+			if !ok {
+				continue
+			}
+			fa, ok := st.Addr.(*ssa.FieldAddr)
+			if !ok {
+				continue
+			}
+			add, ok := st.Val.(*ssa.BinOp)
+			if !ok || add.Op != token.ADD {
+				continue
+			}
+			if k, isK := constInt(add.Y); !isK || k <= 0 {
+				continue
+			}
+			if fb, ok := fieldOf(add.X); ok && fb.Field == fa.Field && types.Identical(fb.X.Type(), fa.X.Type()) {
+				step = st
+				bs.field = fa
+			}
+		}
+	}
+	if step == nil {
+		return bs, false
+	}
+	rets := returnsOf(g)
+	if len(rets) == 0 {
+		return bs, false
+	}
+	found := false
+	for idx := 0; idx < g.Signature.Results().Len(); idx++ {
+		if bt, isB := g.Signature.Results().At(idx).Type().Underlying().(*types.Basic); !isB || bt.Kind() != types.Bool {
+			continue
+		}
+		all := true
+		for _, ret := range rets {
+			bo, ok := res(ret, idx).(*ssa.BinOp)
+			if !ok {
+				all = false
+				break
+			}
+			fb, isF := fieldOf(bo.X)
+			if !isF || fb.Field != bs.field.Field || !types.Identical(fb.X.Type(), bs.field.X.Type()) {
+				all = false
+				break
+			}
+			if !MustPass(ret, func(x ssa.Instruction) bool { return x == ssa.Instruction(step) }) {
+				all = false
+				break
+			}
+			switch bo.Op {
+			case token.LEQ, token.LSS:
+				bs.withinWhen = true
+			case token.GTR, token.GEQ:
+				bs.withinWhen = false
+			default:
+				all = false
+			}
+			if k, isK := constInt(bo.Y); isK {
+				bs.boundConst = k
+			} else if pa, isP := bo.Y.(*ssa.Parameter); isP {
+				bs.boundParam = pa
+			} else {
+				all = false
+			}
+		}
+		if all {
+			bs.resIdx = idx
+			found = true
+			break
+		}
+	}
+	return bs, found
+}
+
+// boolStepCond: cond is the `within` result of a call of a bool-form depth step; returns the helper's description.
+func boolStepCond(p *Prog, cond ssa.Value) (boolStep, *ssa.Call, bool) {
+	v := stripLoad(cond)
+	idx := 0
+	if ex, ok := v.(*ssa.Extract); ok {
+		v, idx = ex.Tuple, ex.Index
+	}
+	c, ok := v.(*ssa.Call)
+	if !ok || c.Common().StaticCallee() == nil {
+		return boolStep{}, nil, false
+	}
+	bs, ok := boolDepthStep(p, c.Common().StaticCallee())
+	if !ok || bs.resIdx != idx {
+		return boolStep{}, nil, false
+	}
+	return bs, c, true
 }
